@@ -296,6 +296,13 @@ def run_case(ctx, sess, case):
         o["versions"] = call("versions", id=oid)
         res = call("list_objects")
         o["list_ok"] = ok(res) and all(ok(e) for e in res["ok"]) and len(res["ok"]) == 1
+        if pos == "id":
+            # a listing filtered by the glob that spells exactly this id, and one by `*` (both go through the
+            # id pre-filter on the raw inventory text): the object is listed under the same string
+            for gname, g in (("exact", glob_escape(oid)), ("star", "*")):
+                res = call("list_objects", glob=g)
+                o["list_glob_" + gname] = ok(res) and len(res["ok"]) == 1 and ok(res["ok"][0]) \
+                    and res["ok"][0]["ok"].get("id") == oid
         o["validate"] = call("validate_object", id=oid)
         if o["cp_ok"]:
             o["cat"] = call("cat", id=oid, version=None, path=exp)
@@ -413,6 +420,10 @@ def analyse(case, o):
             msgs.append(("committed, cat of the logical path fails or returns other bytes", []))
 
     if pos == "id":
+        for gname in ("exact", "star"):
+            if o.get("commit_ok") and o.get("list_glob_" + gname) is False:
+                msgs.append(("committed, a listing filtered by the glob %s does not return the object under its id"
+                             % ("spelling exactly this id" if gname == "exact" else "`*`"), []))
         stored = None
         if o["new_ok"]:
             inv = parsed(o["staged0"], "staged")
